@@ -37,7 +37,7 @@ SKELETONS = {
                          ('section', 's2', '\\ref{p1} \\ref{sss1}')]),
 }
 SKELETONS['bibindex'] = ('article', ['x0 \\cite{k2}\\index{zeta} ', ('section', 's1', 'a\\index{alpha} \\cite{k1} \\ref{s2}'), ('subsection', 'ss1', 'b\\index{beta}\\index{alpha} \\cite{k2,k1}'),
-                                      ('subsubsection', 'sss1', 'c\\index{alpha!sub}'), ('section', 's2', 'd\\index{gamma!delta} \\ref{ss1}'),
+                                      ('subsubsection', 'sss1', 'c\\index{alpha!sub}'), ('section', 's2', 'd\\index{gamma!delta}\\index{\\_x}\\index{\\_y}\\index{Alpha} \\ref{ss1}'),
                                       '\\begin{thebibliography}{9}\\bibitem{k1}X\\bibitem{k2}Y\\end{thebibliography}\\printindex '])
 # the number a resolved reference shows (default numbering depth 2: deeper units carry no number of their own)
 NUMBERS = {'article': {'s1': '1', 'ss1': '1.1', 's2': '2', 'eq1': '1', 'ss2': '2.1'}, 'book': {'c1': '1', 's1': '1.1', 'ss1': '1.1.1', 'c2': '2', 's2': '2.1'},
@@ -78,6 +78,7 @@ class Rec(R.Renderer):
                                         rec['index'].append({'url': str(pg.url), 'id': n.id, 'hfile': None if nh is None else nh.filename, 'attached': _attached(n, document)})
                                 entries(list(en))
                         entries(list(c))
+                        rec['groups'] = [(g.id, g.title) for g in c.groups]
                     if c.nodeName == 'ref':
                         t = c.idref.get('label')
                         th = nearest_file(t) if t is not None else None
@@ -211,7 +212,9 @@ def h_links(e, skel, base):
         for t, tf in rec['toc']:
             e.check(tf is not None or bool(nonfiles), 'the table of contents lists a unit without a file although toc-non-files is off', 'toc-nonfile')
     if skel == 'bibindex':
-        e.check(len(rec['cites']) == 4 and len(rec['index']) == 6, 'citation links: %d (4 written), index page links: %d (6 written)' % (len(rec['cites']), len(rec['index'])), 'links-lost')
+        gids = [g for g, _ in rec.get('groups', [])]
+        e.check(len(gids) >= 4 and len(gids) == len(set(gids)), 'identifiers of the index groups (link targets of the letter bar) are not unique: %s' % gids, 'id-duplicate')
+        e.check(len(rec['cites']) == 4 and len(rec['index']) == 9, 'citation links: %d (4 written), index page links: %d (9 written)' % (len(rec['cites']), len(rec['index'])), 'links-lost')
     e.observe([sorted(files), [x['turl'] for x in rec['refs']], [x['url'] for x in rec['cites']], len(rec['index'])])
     if len(files) >= 2:
         e.nontriv()
